@@ -1677,7 +1677,11 @@ def gen_if_block(node, code, codegen):
     if cur_else_stmt and codegen.debug_info_enabled:
         code.add(('_dbg_info_end', cur_else_stmt))
 
-    gen_code_for_block(node.else_body, code, codegen)
+    if node.else_stmt is not None or node.else_body:
+        # (without an ELSE there is no empty ELSE part to mark: the
+        # marker would sit at the first instruction behind the block
+        # and be taken for the empty body of a block that starts there)
+        gen_code_for_block(node.else_body, code, codegen)
     code.add(('_label', endif_label))
 
 
